@@ -254,6 +254,142 @@ def synthetic_messages(seed, n, collide=True):
     return out
 
 
+# ----------------------------------------------------------------------------
+# operator-bearing templates: framed by bufrgen, data bits random (any bit pattern of sufficient
+# length decodes to *something*); only the bitmap bits are placed, which needs nothing but the
+# Table B widths of the operator-free prefix. No ground truth: these serve differential oracles
+# (history vs fresh process, compiled vs interpreted), after admission by a lone decode.
+def gen_operator_spec(rng, version=None):
+    versions = [v for v in bufrgen.table_versions() if v >= 13]
+    version = version or rng.choice(versions)
+    b, _d = bufrgen.load_tables(version)
+    els = [e for e in _elements(version) if b[e][4] <= 64 or b[e][1] == bufrgen.STRING_UNIT and b[e][4] <= 160]
+    nums = [e for e in els if b[e][1] != bufrgen.STRING_UNIT and 'able' not in b[e][1].lower()
+            and 2 <= b[e][4] <= 32]
+    strs = [e for e in els if b[e][1] == bufrgen.STRING_UNIT]
+    ids = []
+    bits = BitsOut()
+
+    def rnd(n):
+        bits.add(rng.getrandbits(n) if n else 0, n)
+
+    kind = rng.choice(['bitmap', 'bitmap', 'bitmap', 'plain-ops', 'plain-ops'])
+    if kind == 'plain-ops':
+        for _ in range(rng.randint(1, 4)):
+            r = rng.random()
+            if r < 0.15:
+                ids += [201000 + rng.choice([126, 127, 129, 130, 132]), rng.choice(nums), rng.choice(nums), 201000]
+            elif r < 0.30:
+                ids += [202000 + rng.choice([126, 127, 129, 130]), rng.choice(nums), 202000]
+            elif r < 0.45:
+                ids += [207000 + rng.choice([1, 2, 3]), rng.choice(nums), rng.choice(nums), 207000]
+            elif r < 0.60 and strs:
+                ids += [208000 + rng.randint(1, 12), rng.choice(strs), rng.choice(nums), rng.choice(strs), 208000]
+            elif r < 0.72:
+                e1, e2 = rng.choice(nums), rng.choice(nums)
+                ids += [203000 + rng.randint(6, 16), e1, e2, 203255, e1, rng.choice(nums), e2, 203000]
+            elif r < 0.84 and 31021 in b:
+                ids += [204000 + rng.randint(1, 8), 31021, rng.choice(nums), rng.choice(els), 204000]
+            elif r < 0.90:
+                ids += [206000 + rng.randint(1, 24), 63000 + rng.randint(200, 250), rng.choice(nums)]
+            elif r < 0.95:
+                ids += [205000 + rng.randint(1, 8), rng.choice(nums)]
+            else:
+                ids += [221000 + 3, rng.choice([e for e in nums if 1 <= e // 1000 <= 9] or nums),
+                        rng.choice(nums), rng.choice(nums)]
+            if rng.random() < 0.5:
+                ids.append(rng.choice(els))
+        data = bytes(rng.randrange(256) for _ in range(24 + 8 * len(ids)))
+    else:
+        k = rng.randint(1, 5)
+        prefix = [rng.choice(nums + strs[:8] if rng.random() < 0.5 else nums) for _ in range(k)]
+        if rng.random() < 0.5 and strs:
+            prefix[rng.randrange(k)] = rng.choice(strs)
+        for e in prefix:
+            ids.append(e)
+            rnd(b[e][4])
+        op = rng.choice([222000, 223000, 223000, 224000, 225000, 232000])
+        ids.append(op)
+        reuse = rng.random() < 0.25
+        if reuse:
+            ids.append(236000)
+        nb = rng.randint(1, k)
+        ids += [101000 + nb, 31031]
+        bitmap = [rng.choice([0, 0, 1]) for _ in range(nb)]
+        if all(bitmap):
+            bitmap[rng.randrange(nb)] = 0
+        for bit in bitmap:
+            bits.add(bit, 1)
+        z = bitmap.count(0)
+        if op == 224000 and 8023 in b:
+            ids.append(8023)
+        if op == 225000 and 8024 in b:
+            ids.append(8024)
+        if op == 222000:
+            if rng.random() < 0.5 and 1031 in b:
+                ids.append(1031)
+            q = rng.choice([q for q in (33007, 33002, 33003) if q in b])
+            ids += [q] * z
+        else:
+            mod = rng.choice([None, None, 'w', 's', 'b', 'n'])
+            sel = [e for e, bit in zip(prefix[k - nb:], bitmap) if bit == 0]
+            if any(b[e][1] == bufrgen.STRING_UNIT for e in sel) and rng.random() < 0.5:
+                mod = 'n'
+            if mod == 'w':
+                ids.append(201000 + rng.choice([126, 130, 132]))
+            elif mod == 's':
+                ids.append(202000 + rng.choice([127, 129]))
+            elif mod == 'b':
+                ids.append(207000 + rng.choice([1, 2]))
+            elif mod == 'n':
+                ids.append(208000 + rng.randint(1, 10))
+            ids += [op + 255] * z
+            if mod:
+                ids.append({'w': 201000, 's': 202000, 'b': 207000, 'n': 208000}[mod])
+            if reuse and rng.random() < 0.6:
+                # a second use of the same bitmap
+                ids += [op, 237000]
+                if op == 224000 and 8023 in b:
+                    ids.append(8023)
+                if op == 225000 and 8024 in b:
+                    ids.append(8024)
+                ids += [op + 255] * z
+        if rng.random() < 0.5:
+            ids.append(rng.choice(nums))
+        data = bits.to_bytes() + bytes(rng.randrange(256) for _ in range(64 + 48 * k))
+    ed = rng.choice([3, 4, 4])
+    return {'edition': ed, 'version': version, 'local_version': 0, 'centre': rng.choice([0, 7, 98]),
+            'subcentre': 0, 'category': rng.choice([0, 2, 6, 12]), 'subcategory': 0, 'local_subcategory': 0,
+            'update': 0, 'date': [2021, 2, 3, 4, 5, 6], 'sec2': None, 'pads': {}, 'compressed': False,
+            'observed': True, 'raw_ids': ids, 'raw_data': data.hex(), 'nsub': 1, 'opkind': kind}
+
+
+class BitsOut(object):
+    def __init__(self):
+        self.acc = 0
+        self.n = 0
+
+    def add(self, v, n):
+        self.acc = (self.acc << n) | v
+        self.n += n
+
+    def to_bytes(self):
+        pad = (-self.n) % 8
+        return ((self.acc << pad).to_bytes((self.n + pad) // 8, 'big')) if self.n else b''
+
+
+def operator_messages(seed, n):
+    rng = random.Random(seed)
+    out = []
+    for i in range(n):
+        spec = gen_operator_spec(rng)
+        msg, _truth = bufrgen.write_message(spec)
+        if msg.find(b'BUFR', 1) >= 0:
+            continue
+        out.append({'ref': 'synop:%d:%d' % (seed, i), 'hex': msg.hex(), 'src': 'operator', 'opkind': spec['opkind']})
+    return out
+
+
 _TWINS = []
 
 
